@@ -3,6 +3,8 @@
 //
 //   - internal/watcher/watcher_impl.go: every `go` statement of fireOnChange and whether the started function
 //     begins with a deferred function that calls recover()
+//   - internal/watcher/watcher_impl.go: what leaves the for/select loop of startWatching besides the returns taken
+//     when one of the two channels has been closed
 //   - internal/rules/provider/filesystem/provider.go: every call in watchFiles that is handed the event, and
 //     whether the callee recovers
 //   - internal/rules/ruleset_processor_impl.go: whether loadRules recovers
@@ -96,6 +98,8 @@ func exprName(e ast.Expr) string {
 		return exprName(t.Fun)
 	case *ast.IndexExpr:
 		return exprName(t.X)
+	case *ast.UnaryExpr:
+		return t.Op.String() + exprName(t.X)
 	}
 
 	return "?"
@@ -165,6 +169,90 @@ func usesIdent(e ast.Expr, name string) bool {
 	return found
 }
 
+// loopExits lists what leaves the `for { select {…} }` loop of fn: return, goto, break/continue to a label outside,
+// panic and os.Exit calls - except returns inside `if !ok {…}` where ok is the second value of the receive of the
+// comm clause they are in (the channel has been closed: the watcher is being shut down). Function literals are not
+// entered (a return there leaves the literal). Second result: the number of such loops found.
+func loopExits(file *ast.File, fn *ast.FuncDecl) ([]string, int) {
+	exits := []string{}
+	loops := 0
+
+	var inClause func(n ast.Node, closedFlag string, clause string)
+
+	inClause = func(n ast.Node, closedFlag string, clause string) {
+		ast.Inspect(n, func(m ast.Node) bool {
+			switch t := m.(type) {
+			case *ast.FuncLit:
+				return false
+			case *ast.IfStmt:
+				if un, ok := t.Cond.(*ast.UnaryExpr); ok && un.Op == token.NOT && closedFlag != "" &&
+					exprName(un.X) == closedFlag && t.Init == nil {
+					// the shut-down branch; its else branch (if any) is ordinary code
+					if t.Else != nil {
+						inClause(t.Else, closedFlag, clause)
+					}
+
+					return false
+				}
+			case *ast.ReturnStmt:
+				exits = append(exits, "return in "+clause)
+			case *ast.BranchStmt:
+				if t.Tok == token.GOTO || (t.Label != nil && (t.Tok == token.BREAK || t.Tok == token.CONTINUE)) {
+					exits = append(exits, t.Tok.String()+" "+exprName(t.Label)+" in "+clause)
+				}
+			case *ast.CallExpr:
+				if name := exprName(t.Fun); name == "panic" || name == "os.Exit" || name == "runtime.Goexit" {
+					exits = append(exits, name+" in "+clause)
+				}
+			}
+
+			return true
+		})
+	}
+
+	ast.Inspect(fn.Body, func(n ast.Node) bool {
+		loop, ok := n.(*ast.ForStmt)
+		if !ok {
+			return true
+		}
+
+		for _, st := range loop.Body.List {
+			sel, ok := st.(*ast.SelectStmt)
+			if !ok {
+				continue
+			}
+
+			loops++
+
+			for _, cl := range sel.Body.List {
+				cc, ok := cl.(*ast.CommClause)
+				if !ok {
+					continue
+				}
+
+				flag, clause := "", "default"
+
+				if as, ok := cc.Comm.(*ast.AssignStmt); ok && len(as.Rhs) == 1 {
+					clause = "case " + exprName(as.Rhs[0])
+					if len(as.Lhs) == 2 {
+						flag = exprName(as.Lhs[1])
+					}
+				} else if es, ok := cc.Comm.(*ast.ExprStmt); ok {
+					clause = "case " + exprName(es.X)
+				}
+
+				for _, body := range cc.Body {
+					inClause(body, flag, clause)
+				}
+			}
+		}
+
+		return false
+	})
+
+	return exits, loops
+}
+
 func main() {
 	repo := flag.String("repo", "/repo", "root of the heimdall source tree")
 	flag.Parse()
@@ -199,6 +287,21 @@ func main() {
 	out.WriteString(leanFacts("listenerGoroutines",
 		"the goroutines `watcher.fireOnChange` starts per listener, and whether what they run begins with a deferred recover",
 		listeners))
+
+	// --- watcher: what leaves the event loop
+	start := funcDecl(wf, "startWatching")
+	if start == nil {
+		die("internal/watcher/watcher_impl.go: func startWatching not found")
+	}
+
+	exits, loops := loopExits(wf, start)
+	if loops != 1 {
+		die("internal/watcher/watcher_impl.go: startWatching has %d for loops around a select (unrecognised shape)", loops)
+	}
+
+	out.WriteString(leanNames("watcherLoopExits",
+		"the statements of `watcher.startWatching` that leave its `for { select { … } }` loop, other than the returns "+
+			"guarded by the \"channel closed\" check of the receive they belong to", exits))
 
 	// --- file_system provider
 	pf := parse(filepath.Join(*repo, "internal/rules/provider/filesystem/provider.go"))
